@@ -18,7 +18,9 @@ EXPLANATION = (
     "3-vectors); likewise the shortcuts dot(v,v) -> norm(v)^2, cross(v,v) -> 0, mixed with a repeated argument -> 0 and the "
     "expansion mixed(u,v,w) -> dot(u, cross(v,w)). R2: sort_with_sign returns Permutation(indices).signature() and 0 on repeats; "
     "the accumulation in each product multiplies by that sign exactly for the antisymmetric products (cross, mixed) and not for "
-    "dot. R3: each _eval_derivative equals the formal derivative of the product for generic vector functions of the parameter "
+    "dot. the default ordering key is the builtin id (equal keys = the same object). "
+    "R4: every call of an operand hook, also through getattr and through helpers, passes (left operand, right operand) of the product being evaluated. "
+    "R3: each _eval_derivative equals the formal derivative of the product for generic vector functions of the parameter "
     "(product rule; norm: dot(v, dv)/norm(v)). Not decided: the multilinear expansion engine (_ordered_mul / into_terms / "
     "split_factor run SymPy's expand on arbitrary trees), termination of .diff, id()-order independence beyond R2.")
 ASSUMPTIONS = ["vectors are real 3-vectors; SymPy's Permutation.signature is the permutation sign",
